@@ -32,6 +32,7 @@ type keyShape struct {
 	threshold int64
 	top       *ssa.BinOp
 	guard     *ssa.If
+	baseVal   ssa.Value
 }
 
 func (k keyShape) String() string {
@@ -43,7 +44,35 @@ func (k keyShape) String() string {
 	return fmt.Sprintf("%s | len(%s)>=%d", strings.Join(ps, "|"), k.base, k.threshold)
 }
 
+// findKeyShape looks in f and, failing that, in the helpers f calls (the key computation may live
+// in a small function of its own); a helper's parameter is mapped back to the argument f passes.
 func findKeyShape(f *ssa.Function) (keyShape, bool) {
+	if ks, ok := findKeyShapeOne(f); ok {
+		return ks, true
+	}
+	for _, g := range helpersOf(f) {
+		ks, ok := findKeyShapeOne(g)
+		if !ok {
+			continue
+		}
+		if p, isParam := stripValue(ks.baseVal).(*ssa.Parameter); isParam {
+			for _, c := range callsIn(f, true) {
+				if c.Common.StaticCallee() != g {
+					continue
+				}
+				for i, gp := range g.Params {
+					if gp == p && i < len(c.Common.Args) {
+						ks.base = baseName(c.Common.Args[i])
+					}
+				}
+			}
+		}
+		return ks, true
+	}
+	return keyShape{}, false
+}
+
+func findKeyShapeOne(f *ssa.Function) (keyShape, bool) {
 	ks := keyShape{pairs: map[[2]int64]bool{}, threshold: -1}
 	var tops []*ssa.BinOp
 	for _, b := range f.Blocks {
@@ -89,7 +118,7 @@ func findKeyShape(f *ssa.Function) (keyShape, bool) {
 				return false
 			}
 			ks.pairs[[2]int64{i, shift}] = true
-			ks.base = baseName(x.X)
+			ks.base, ks.baseVal = baseName(x.X), x.X
 			return true
 		case *ssa.Lookup: // string index (older go/ssa)
 			i, ok := constInt(asConst(x.Index))
@@ -97,7 +126,7 @@ func findKeyShape(f *ssa.Function) (keyShape, bool) {
 				return false
 			}
 			ks.pairs[[2]int64{i, shift}] = true
-			ks.base = baseName(x.X)
+			ks.base, ks.baseVal = baseName(x.X), x.X
 			return true
 		case *ssa.UnOp: // load of &slice[i]
 			if ia, ok := x.X.(*ssa.IndexAddr); ok && x.Op == token.MUL {
@@ -106,7 +135,7 @@ func findKeyShape(f *ssa.Function) (keyShape, bool) {
 					return false
 				}
 				ks.pairs[[2]int64{i, shift}] = true
-				ks.base = baseName(ia.X)
+				ks.base, ks.baseVal = baseName(ia.X), ia.X
 				return true
 			}
 		}
@@ -116,12 +145,12 @@ func findKeyShape(f *ssa.Function) (keyShape, bool) {
 		return ks, false
 	}
 	// threshold: a branch `len(base) >= K` that dominates the key computation on its true edge
-	for _, br := range branchesIn(f) {
+	for _, br := range branchesInOne(f) {
 		c, ok := br.Info.Root.(*ssa.Call)
 		if !ok {
 			continue
 		}
-		if b, ok := c.Call.Value.(*ssa.Builtin); !ok || b.Name() != "len" || baseName(c.Call.Args[0]) != ks.base {
+		if b, ok := c.Call.Value.(*ssa.Builtin); !ok || b.Name() != "len" || (baseName(c.Call.Args[0]) != ks.base && !sameValue(c.Call.Args[0], ks.baseVal)) {
 			continue
 		}
 		k, ok := constInt(br.Info.Const)
@@ -137,7 +166,7 @@ func findKeyShape(f *ssa.Function) (keyShape, bool) {
 		if !ok2 {
 			continue
 		}
-		if br.If.Block().Succs[slot].Dominates(ks.top.Block()) && k > ks.threshold {
+		if dom(br.If.Block().Succs[slot], ks.top.Block()) && k > ks.threshold {
 			ks.threshold = k
 			ks.guard = br.If
 		}
@@ -233,7 +262,7 @@ func runC01(r *Run) {
 				// guarded by key != 0
 				guarded := false
 				for _, br := range branchesIn(f) {
-					if s, ok := br.eqIntSlot(0, false); ok && br.If.Block().Succs[s].Dominates(mu.Block()) {
+					if s, ok := br.eqIntSlot(0, false); ok && dom(br.If.Block().Succs[s], mu.Block()) {
 						guarded = true
 					}
 				}
@@ -308,7 +337,7 @@ func runC01(r *Run) {
 			onNotOk := false
 			for _, br := range branchesIn(f) {
 				if ex, ok := stripValue(br.Info.Root).(*ssa.Extract); ok && ex.Tuple == commaok && ex.Index == 1 {
-					if s2, ok := br.truthSlot(false); ok && br.If.Block().Succs[s2].Dominates(zero.Block()) {
+					if s2, ok := br.truthSlot(false); ok && dom(br.If.Block().Succs[s2], zero.Block()) {
 						onNotOk = true
 					}
 				}
@@ -437,7 +466,7 @@ func runC01(r *Run) {
 			}
 			// restrict to the branch that dominates the 405 (the earlier `!matched && !route.use` test is a different one)
 			for e := range cut {
-				if !e.To().Dominates(loads[0].Block()) {
+				if !dom(e.To(), loads[0].Block()) {
 					delete(cut, e)
 				}
 			}
@@ -684,7 +713,7 @@ func rebasedAround(g *Graph, f *ssa.Function, at ssa.Instruction, seen map[*ssa.
 	for _, b := range f.Blocks {
 		for _, in := range b.Instrs {
 			if in != at && g.instrWrites(in, cur) {
-				if b == at.Block() && idxIn(in) < idxIn(at) || (b != at.Block() && b.Dominates(at.Block())) {
+				if b == at.Block() && idxIn(in) < idxIn(at) || (b != at.Block() && dom(b, at.Block())) {
 					return nil, "cursor write dominates in " + f.Name()
 				}
 			}
